@@ -124,6 +124,28 @@ def run(ctx, model):
         eff_max = select.PIPE_BUF if max_size is None else max_size
         cases.append((cmd, data, layers, eff_max, carrier, out.writes, err, len(sent)))
 
+    # GraphicsTerminal.send_command(force_direct_transmission=True): a file-name transmission (t=f / t=t) is turned into
+    # an inline one carrying the file's contents — the same chunking contract applies to what is written
+    forced = 0
+    for cmd0, data, layers, max_size in list(gen_cases(ctx, tup, {n: len(t) for n, t in templates.items()}))[: ctx.pick(150, 1500)]:
+        if max_size is None or not data:
+            continue
+        with open(tmpfile, "wb") as f:
+            f.write(data)
+        fcmd = cmd0.clone_with(medium=rng.choice([gc.TransmissionMedium.FILE, gc.TransmissionMedium.TEMP_FILE]), data=tmpfile.encode())
+        out = common.RecStream()
+        term = GT(out_command=out, out_display=common.RecStream(), in_response=io.BytesIO(), in_userinput=io.BytesIO(),
+                  num_tmux_layers=layers, max_command_size=max_size, force_direct_transmission=True)
+        err = None
+        try:
+            term.send_command(fcmd)
+        except ValueError:
+            err = "ValueError"
+        equiv = fcmd.clone_with(medium=gc.TransmissionMedium.DIRECT, data=data)
+        cases.append((equiv, data, layers, max_size, "forced-direct-from-file", out.writes, err, len(out.writes)))
+        forced += 1
+    cov.bump("forced-direct-from-file", forced)
+
     reqs = []
     for cmd, data, layers, eff_max, carrier, writes, err, nsent in cases:
         reqs.append(f"cmd.send {layers} {eff_max} " + " ".join(cmdcodec.tokens(gc, cmd)))
